@@ -38,6 +38,7 @@ bool build_check(const std::string& prop, const std::string& tier, CheckSpec& s,
         s.batches.push_back(mk("wkd", q ? 400 : 40000, FAST, "single", {{"focus", 0}}, "unbiased swarm mix"));
         s.batches.push_back(mk("wkd", q ? 48 : 3000, {"C/portable32"}, "single", {{"focus", focus}, {"maxops", 12}}, "32-bit-word replica (10x slower)"));
         s.batches.push_back(mk("wkd", q ? 60 : 3000, FAST, "duo", {{"focus", focus}, {"maxops", 12}}, "two histories as concurrent caller threads under the seeded scheduler (preemption inside field multiplications)"));
+        s.batches.push_back(mk("wkd", q ? 32 : 2000, FAST, "single", {{"focus", focus}, {"wide", 1}, {"maxops", 9}}, "wide systems: 12..80 slots, keys with long free-slot arrays, lists with slot indices beyond 64"));
         return true;
     }
     if (prop == "C15" || prop == "C17") {
@@ -45,6 +46,7 @@ bool build_check(const std::string& prop, const std::string& tier, CheckSpec& s,
         s.rule = "case = one delivery of a marshalled object through the simulated store: (object kind, form, validating?, slot count, signature support, fault token(s) incl. target element and malformation kind, outcome); distinct by that tuple; non-trivial iff the delivered bytes differ from the bytes written";
         s.batches.push_back(mk("wkd", 80, {"A/bmi2-adx", "B/portable64"}, "single", {{"hopenum", 1}, {"stride", q ? 2 : 1}}, "enumeration: every embedded element x every invalid-encoding kind, truncation lengths (every length in thorough, every 5th in quick), extensions, byte flips, junk buffers; 5 object kinds x 2 forms x validating/not x 4 shapes"));
         s.batches.push_back(mk("wkd", q ? 300 : 12000, FAST, "single", {{"focus", 15}}, "histories with marshalling hops and restarts in between the scheme operations"));
+        s.batches.push_back(mk("wkd", q ? 32 : 2000, FAST, "single", {{"focus", 15}, {"wide", 1}, {"maxops", 9}}, "wide systems: parameters and keys with 12..80 slots through the store (length recovery from long buffers, free-slot arrays of dozens of entries)"));
         s.batches.push_back(mk("lq", 8, {"A/bmi2-adx", "B/portable64"}, "single", {{"hopenum", 1}}, "LQ-IBE objects: every embedded element x every invalid-encoding kind, both forms, validating and not"));
         s.batches.push_back(mk("lq", q ? 200 : 8000, FAST, "single", {}, "LQ-IBE histories with marshalling hops"));
         s.batches.push_back(mk("wkd", q ? 40 : 2000, FAST, "duo", {{"focus", 15}, {"maxops", 12}}, "marshalling hops by two concurrent caller threads"));
@@ -94,6 +96,9 @@ bool build_check(const std::string& prop, const std::string& tier, CheckSpec& s,
         s.batches.push_back(mk("group", q ? 80 : 3000, ALLG, "crossrep", {}, "layer 2: group and target-group API"));
         s.batches.push_back(mk("wkd", q ? 80 : 4000, {"A/bmi2-adx"}, "flipdispatch", {{"maxops", 14}}, "layer 3: the run-time dispatch pointers of replica A are swapped between the BMI2/ADX and baseline routines at seeded yield points inside operations; transcript must equal the undisturbed run"));
         s.batches.push_back(mk("pairs", q ? 60 : 2000, {"A/bmi2-adx"}, "flipdispatch", {}, "layer 3: dispatch flips inside Miller loops"));
+        s.batches.push_back(mk("sample", q ? 60 : 2000, {"A/bmi2-adx"}, "flipdispatch", {}, "layer 3: dispatch flips inside samplers, hash-to-curve and target-group exponentiation"));
+        s.batches.push_back(mk("lq", q ? 40 : 2000, {"A/bmi2-adx"}, "flipdispatch", {}, "layer 3: dispatch flips inside LQ-IBE operations"));
+        s.batches.push_back(mk("enc", q ? 40 : 2000, {"A/bmi2-adx"}, "flipdispatch", {}, "layer 3: dispatch flips inside point decoding (square roots, subgroup checks)"));
         return true;
     }
     if (prop == "C19") {
@@ -108,6 +113,7 @@ bool build_check(const std::string& prop, const std::string& tier, CheckSpec& s,
         s.batches.push_back(mk("enc", q ? 120 : 4000, FAST, "crossview", {}, "encodings"));
         s.batches.push_back(mk("pairs", q ? 120 : 4000, FAST, "crossview", {}, "pairing products"));
         s.batches.push_back(mk("wkd", q ? 10 : 400, {"C/portable32"}, "crossview", {{"maxops", 10}}, "32-bit words"));
+        s.batches.push_back(mk("wkd", q ? 16 : 600, FAST, "crossview", {{"wide", 1}, {"maxops", 8}}, "wide systems (12..80 slots)"));
         s.batches.push_back(mk("group", q ? 200 : 8000, ALL, "crossview", {}, "group and target-group API functions not used by the schemes (add, add_mixed, negate, double, multiply, equal, conversions, gt_add/negate/double/equal) incl. raw Fq12 inputs outside GT"));
         return true;
     }
